@@ -76,32 +76,13 @@ func keyidDecodeRules(c *Ctx) ([]*ssa.Function, bool) {
 	}
 	// ---- R2: the version checkers: anonymous functions of the package initialiser with signature func(*KeyID) error
 	var checkers []*ssa.Function
-	if init := p.Func("init"); init != nil {
-		// the functions (literals or named) stored into a map by the initialiser, of type func(*KeyID) error
+	// the functions (literals or named) the checker table maps versions to
+	if m := keyidTable(w, keyidCheckerTable); m != nil {
 		seenChk := map[*ssa.Function]bool{}
-		for _, b := range init.Blocks {
-			for _, ins := range b.Instrs {
-				mu, ok := ins.(*ssa.MapUpdate)
-				if !ok {
-					continue
-				}
-				var a *ssa.Function
-				switch v := strip(mu.Value).(type) {
-				case *ssa.Function:
-					a = v
-				case *ssa.MakeClosure:
-					a, _ = v.Fn.(*ssa.Function)
-				}
-				if a == nil || a.Blocks == nil || seenChk[a] {
-					continue
-				}
-				sig := a.Signature
-				if sig.Params().Len() == 1 && sig.Results().Len() == 1 && isErrorType(sig.Results().At(0).Type()) {
-					if ptr, ok := sig.Params().At(0).Type().(*types.Pointer); ok && types.Identical(ptr.Elem(), kid) {
-						seenChk[a] = true
-						checkers = append(checkers, a)
-					}
-				}
+		for _, e := range m.Entries {
+			if a := funcValue(e.Vals[0]); a != nil && a.Blocks != nil && !seenChk[a] {
+				seenChk[a] = true
+				checkers = append(checkers, a)
 			}
 		}
 	}
@@ -206,19 +187,50 @@ func intVal(v interface{ String() string }) (int64, bool) {
 
 // tableLookupOK: literal l states that a comma-ok lookup in the package-level map `global`, keyed by the
 // Version field of base, succeeded.
-func lookupOn(v ssa.Value, tableType string, w *World) *ssa.Lookup {
-	ex, ok := v.(*ssa.Extract)
-	if !ok {
+// keyidTable: the required-key table ("required") or the checker table ("checker") of package keyid as a finite map
+// (map literal or switch function), the one the codec consults.
+func keyidTable(w *World, which string) *finiteMap {
+	kid := w.NamedType(keyidPkg, "KeyID")
+	isVer := func(t types.Type) bool { b, ok := t.Underlying().(*types.Basic); return ok && b.Kind() == types.Uint16 }
+	var elem func(types.Type) bool
+	if which == keyidRequiredTable {
+		elem = func(t types.Type) bool {
+			s, ok := t.Underlying().(*types.Slice)
+			if !ok {
+				return false
+			}
+			b, ok := s.Elem().Underlying().(*types.Basic)
+			return ok && b.Kind() == types.String
+		}
+	} else {
+		elem = func(t types.Type) bool {
+			sig, ok := t.Underlying().(*types.Signature)
+			if !ok || kid == nil || sig.Params().Len() != 1 || sig.Results().Len() != 1 || !isErrorType(sig.Results().At(0).Type()) {
+				return false
+			}
+			ptr, ok := sig.Params().At(0).Type().(*types.Pointer)
+			return ok && types.Identical(ptr.Elem(), kid)
+		}
+	}
+	var used []*finiteMap
+	for _, m := range w.finiteMaps(keyidPkg, isVer, elem) {
+		if len(w.fmLookups(m)) > 0 {
+			used = append(used, m)
+		}
+	}
+	if len(used) != 1 {
 		return nil
 	}
-	lk, ok := ex.Tuple.(*ssa.Lookup)
-	if !ok || !lk.CommaOk {
+	return used[0]
+}
+
+// lookupOn: v is the value or the found flag of a lookup in the named keyid table.
+func lookupOn(v ssa.Value, tableType string, w *World) *fmLookup {
+	m := keyidTable(w, tableType)
+	if m == nil || v == nil {
 		return nil
 	}
-	if !exprIsGlobalOfType(w, w.Expr(lk.X), keyidPkg, tableType) {
-		return nil
-	}
-	return lk
+	return w.fmLookupOf(m, v)
 }
 
 // the two version-indexed tables of package keyid, identified by type
@@ -320,7 +332,7 @@ func checkKeyidUnmarshal(c *Ctx, kid *types.Named) {
 	}
 	// the required-key loop
 	var keyLookup *ssa.Lookup
-	var reqLookup *ssa.Lookup
+	var reqLookup *fmLookup
 	for _, tf := range w.Tree(fn) {
 		for _, b := range tf.Blocks {
 			for _, ins := range b.Instrs {
@@ -329,20 +341,25 @@ func checkKeyidUnmarshal(c *Ctx, kid *types.Named) {
 					continue
 				}
 				ex := w.Expr(lk.X)
-				if exprIsGlobalOfType(w, ex, keyidPkg, keyidRequiredTable) {
-					reqLookup = lk
-				}
 				if strings.HasPrefix(ex, "makemap<") || strings.HasPrefix(ex, "alloc<map[") {
 					keyLookup = lk
 				}
 			}
 		}
 	}
-	if reqLookup == nil || keyLookup == nil {
+	if m := keyidTable(w, keyidRequiredTable); m != nil {
+		for _, l := range w.fmLookups(m) {
+			if w.inTree(fn, l.Instr.Parent()) && l.OK != nil {
+				ll := l
+				reqLookup = &ll
+			}
+		}
+	}
+	if reqLookup == nil || keyLookup == nil || reqLookup.Val == nil {
 		c.Unresolved("R3.gate", "required-key table lookup / per-key map lookup in keyid.Unmarshal")
 		return
 	}
-	reqKeys := extractOfV(reqLookup, 0)
+	reqKeys := reqLookup.Val
 	// per-key lookup: key is element of reqKeys at a forward range index, map is the one decoded by jMap
 	okLoop := false
 	if ld, ok := keyLookup.Index.(*ssa.UnOp); ok && ld.Op == token.MUL {
